@@ -39,6 +39,11 @@ def jobs(ctx, props):
     for name in ('single', 'chain2', 'pair', 'task-analysis'):
         out.append((name + '/db-outage', E[name], ['A', 'B'] if name in ('single', 'pair') else ['A'], props,
                     {'reqs': 2, 'faults': 1 if quick else 2}))
+    # one reply arriving while the history journal cannot be written (the write
+    # raises): whatever else is lost, the unit must not stay "executing" for ever
+    for name in ('single', 'chain2', 'pair'):
+        out.append((name + '/journal-outage', E[name], ['A', 'B'] if name in ('single', 'pair') else ['A'], props,
+                    {'reqs': 2, 'faults': 1, 'journal_faults': True, 'outcomes': ('success', 'failure')}))
     out += schedcheck.timer_jobs(props, quick)
     return out
 
